@@ -318,7 +318,7 @@ pub fn run(cfg: &Cfg) -> Report {
     let stats = run_honest(cfg, 14, n, &[Frag::Seq, Frag::Stream, Frag::SeqNoFail, Frag::StreamNoFail], |c, case, rng, st| {
         let w = &c.world;
         let h = &c.history;
-        if c.world.script.is_none() || super::taint::by_step(h).iter().any(|t| t.0 || t.1) {
+        if c.world.script.is_none() || super::taint::by_step(h).iter().any(|t| t.0 || t.1 || t.2) {
             // directed scripts, and histories that show a recorded finding, are not attacked
             return;
         }
